@@ -81,6 +81,53 @@ def run(ctx):
         ops, sizes, rp = recipes.same_name_links(cfg, ctx.rng)
         extra.append(('recipe:same_name_links', cfg, ops, sizes))
     sysprops.run_oracle(ctx, 'C09', iter(extra), oracle, need_reopen=False, max_shrink=3)
+    # the same object mastered more than once with edits in between (what a second write reuses from the first must be refreshed)
+    hist = list(sysprops.histories(ctx, 40 if quick else 600, RECIPES, dict(allow_refusals=False, fat_dir=0.3), nops=(8, 35),
+                                   recipe_cfgs=2 if quick else 10, cfg_filter=lambda c: c.joliet is not None))
+    for label, cfg, ops, sizes in hist:
+        if len(ops) < 4:
+            continue
+        ks = sorted(set(ctx.rng.randrange(1, len(ops)) for _ in range(ctx.rng.choice([1, 1, 2]))))
+        sysprops.run_oracle(ctx, 'C09', iter([(label + '+write-in-between', cfg, ops, sizes)]), oracle, need_reopen=False, max_shrink=1,
+                            build_kwargs={'schedule': {k: ['write'] for k in ks}})
+    # directed: Joliet names whose UTF-16BE form contains the bytes 00 2F ('/') straddling two code units (U+xx00 followed by U+2Fyy):
+    # legal names that must be stored, found again and usable as parents
+    looky = ['\u4e00\u2f08', '\u3000\u2ff0', 'a\u4e00\u2f08b', '\u0100\u2f00x', '\u2f00\u2f00', 'n\u5e00\u2f2f']
+    for i, nm in enumerate(looky if not quick else looky[:4]):
+        cfg = ctx.rng.choice([c for c in syslevel.all_configs() if c.joliet and not c.udf])
+        rr = (lambda n: {'rr': n}) if cfg.rr else (lambda n: {})
+        ops = [dict(k='add_dir', iso='/LOOK%d' % i, jol='/' + nm, **rr('look%d' % i)),
+               dict(k='add_fp', blob=1, size=33, iso='/LOOK%d/F.;1' % i, jol='/' + nm + '/' + nm + '.txt', **rr('f')),
+               dict(k='add_dir', iso='/LOOK%d/SUB' % i, jol='/' + nm + '/sub', **rr('sub')),
+               dict(k='add_fp', blob=2, size=5, iso='/G%d.;1' % i, jol='/' + nm + nm, **rr('g')),
+               dict(k='rm_link', ns='jol', path='/' + nm + nm),
+               dict(k='add_fp', blob=3, size=7, iso='/H%d.;1' % i, jol='/' + nm + '/sub/h', **rr('h'))]
+        bb = sysimg.build(cfg, ops, {1: 33, 2: 5, 3: 7})
+        ctx.case(('lookalike', nm, cfg.key()), True)
+        if bb.fail is None:
+            bb.iso.close()
+        bad = [(o, r) for o, r in zip(ops, bb.outs) if r != 'ok']
+        if bad or bb.fail is not None:
+            ctx.violation('c09:lookalike-separator:%s' % ('refused' if bad else 'fails'), 'C09: the legal Joliet name %r (UTF-16BE bytes contain 00 2F across two '
+                          'code units) cannot be used: %s' % (nm, ('edit %s has outcome %s' % (bad[0][0]['k'], bad[0][1])) if bad else bb.fail[1]),
+                          {'config': cfg.key(), 'ops': ops, 'name': nm})
+            continue
+        sysprops.run_oracle(ctx, 'C09', iter([('directed:lookalike-separator', cfg, ops, {1: 33, 2: 5, 3: 7})]), oracle, need_reopen=False, max_shrink=1)
+    # directed: between two writes a Joliet directory with sub-directories keeps its extent while its path table number changes
+    for i in range(6 if quick else 40):
+        cfg = ctx.rng.choice([c for c in syslevel.all_configs() if c.joliet and not c.udf])
+        rr = (lambda n: {'rr': n}) if cfg.rr else (lambda n: {})
+        ops = [dict(k='add_dir', iso='/ZONLY', **rr('zonly')),
+               dict(k='add_dir', iso='/B', jol='/b', **rr('b')), dict(k='add_dir', iso='/B/SUB', jol='/b/sub', **rr('sub')),
+               dict(k='add_dir', iso='/C', jol='/c', **rr('c')), dict(k='add_dir', iso='/C/SUB2', jol='/c/sub2', **rr('sub2')),
+               dict(k='add_fp', blob=1, size=10, iso='/B/SUB/F.;1', jol='/b/sub/f', **rr('f'))]
+        k = len(ops)
+        if i % 2 == 0:
+            ops += [dict(k='rm_dir', iso='/ZONLY'), dict(k='add_dir', jol='/a0')]
+        else:
+            ops += [dict(k='add_dir', jol='/a0'), dict(k='rm_dir', iso='/ZONLY'), dict(k='add_dir', jol='/a1'), dict(k='rm_dir', jol='/a1')]
+        sysprops.run_oracle(ctx, 'C09', iter([('directed:ptr-renumber-between-writes', cfg, ops, {1: 10})]), oracle, need_reopen=False,
+                            max_shrink=1, build_kwargs={'schedule': {k: ['write']}})
     ctx.cov['rule'] = ('Joliet images (levels 1-3) of random histories whose Joliet tree differs from the ISO9660 tree (Joliet-only and '
                        'ISO-only entries, BMP and non-BMP names), plus path-table/directory boundary recipes and same-named links; the '
                        'reader\'s Joliet tree must equal the tree built, every Joliet file must share the extents of its ISO9660 link; '
